@@ -18,6 +18,9 @@ type LoopContract struct {
 	Invariants []Clause
 	Decreases  []Clause
 	Modifies   []Clause // extra havoc targets (normally inferred)
+	// LocalOnly: the loop writes heap cells only of objects allocated by this function
+	// activation (checked at every write); cells that existed at function entry are framed.
+	LocalOnly bool
 }
 
 // GhostAt is a ghost update anchored at the k-th call of a callee (or at entry/return).
@@ -132,7 +135,7 @@ var funcHdrRe = regexp.MustCompile(`^(assume\s+)?func\s+(.+?)\s*$`)
 var loopRe = regexp.MustCompile(`^loop\[(\d+)\]\s+(invariant|decreases|modifies)\s+(.*)$`)
 var labelRe = regexp.MustCompile(`^\[([A-Za-z0-9_.:-]+)\]\s*(.*)$`)
 var ghostAtRe = regexp.MustCompile(`^ghost\s+at\s+(entry|return|call\[(\d+|\*)\]\s+(\S+)\s+(before|after))\s*:\s*\$([A-Za-z0-9_]+)\s*=\s*(.*)$`)
-var callSpecRe = regexp.MustCompile(`^at\s+call\[(\d+|\*)\]\s+(\S+)\s+(assert|iter|assume)\s+(.*)$`)
+var callSpecRe = regexp.MustCompile(`^at\s+call\[(\d+|\*)\]\s+(\S+)\s+(assert|iter|assume|assume_before|releases)\s+(.*)$`)
 
 // parseContractFile reads //@ lines. pkgPath is the default package for relative names.
 func (cs *ContractSet) parseContractFile(file string, pkgPath string) error {
@@ -436,6 +439,10 @@ func parseClause(fc *FuncContract, s, src string, resolve func(string) string) e
 				}
 				lc.Decreases = append(lc.Decreases, c)
 			case "modifies":
+				if strings.TrimSpace(m[3]) == "local" {
+					lc.LocalOnly = true
+					return nil
+				}
 				for _, part := range splitTop(m[3], ',') {
 					c, err := mk(strings.TrimSpace(part))
 					if err != nil {
